@@ -207,9 +207,27 @@ def splice_item(rel, prefix, opts=None):
         raise ExtractError("item `%s` has no end" % prefix)
     code = strip_comments_and_attrs(text[m.start():end])
     d = ["item `%s`: attributes (derives) and comments" % prefix]
+    if opts and opts.get("derive"):
+        # keep the listed derives, provided the original item really derives them (looked up in the
+        # attribute lines directly above the item); `Structural` is Verus' marker for structural ==
+        head = text[max(0, m.start() - 600):m.start()]
+        have = set(x.strip() for mm in re.finditer(r"derive\(([^)]*)\)", head[head.rfind("\n\n") + 1:]) for x in mm.group(1).split(","))
+        want = [x for x in opts["derive"].split(",") if x]
+        missing = [x for x in want if x not in have and x != "Structural"]
+        if missing:
+            raise ExtractError("item `%s` does not derive %s in the source" % (prefix, missing))
+        code = "#[derive(%s)]\n%s" % (", ".join(want), code)
+        d[0] = "item `%s`: attributes and comments, except derive(%s) kept from the source%s" % (
+            prefix, ", ".join(x for x in want if x != "Structural"), " (+ Verus marker Structural)" if "Structural" in want else "")
     if opts and opts.get("vis") == "strip":
         code = re.sub(r"^pub(\([a-z:]+\))?\s+", "", code)
         d.append("item `%s`: visibility qualifier" % prefix)
+    for pair in [p for p in (opts or {}).get("subst", "").split(";;") if p]:
+        a, b = pair.split("=>", 1)
+        if a not in code:
+            raise ExtractError("substitution source `%s` not found in item %s" % (a, prefix))
+        code = code.replace(a, b)
+        d.append("item `%s`: substitution `%s` => `%s`" % (prefix, a, b))
     return "// extracted verbatim from %s\n%s" % (rel, code), d
 
 
@@ -239,9 +257,20 @@ def expand_splices(body):
             dropped += d
             i += 1
             continue
+        if s.startswith("//@ include-job"):
+            inc = os.path.join(os.path.dirname(JOBDIR[0]), s.split()[2])
+            sub, d = expand_splices("\n".join(l for l in open(inc).read().split("\n") if not l.startswith("//@ verus")))
+            out.append("// ---- included job %s ----" % s.split()[2])
+            out.append(sub)
+            dropped += d
+            i += 1
+            continue
         out.append(lines[i])
         i += 1
     return "\n".join(out), dropped
+
+
+JOBDIR = [os.path.join(os.path.dirname(os.path.dirname(os.path.abspath(__file__))), "verus", "extract", "x")]
 
 
 def functions_of(job):
